@@ -1,15 +1,17 @@
-(* ObjectRtProofs.v -- Writer.write_object then the parser's ordered choice [object_alts]
-   (shared by _direct_objects and by the content-stream operand) is the identity up to
-   [norm_obj], for every direct object, nested arbitrarily, with arbitrary bytes in names,
-   strings and keys.
+(* ObjectRtProofs.v -- Writer.write_object then the parser's ordered choice [object_alts_c]
+   (shared by _direct_objects_at and by the content-stream operand) is the identity up to
+   [norm_obj], for every direct object, nested up to the parser's depth limit, with arbitrary
+   bytes in names, strings and keys.
 
    Interface (for C01 / C14):
-     norm_obj, obj_wf, follow_ok, cont_ok               definitions
-     object_rt        the round trip at the level of [object_alts]
-     direct_objects_rt, direct_object_rt, parse_direct_object_rt   corollaries for the entry points
-     cont_follow, cont_lead, cont_elem                  how to establish the follow condition
-     write_object_lead                                   first byte of any written object
-     norm_obj_idem, norm_obj_wf                          the normal form is stable
+     norm_obj, norm_dict, obj_wf, nest, follow_ok, num_follow, ref_tail, cont_ok, ref_ok     definitions
+     object_rt        the round trip at the level of [object_alts_c], at any depth >= nest o
+     direct_objects_at_rt, direct_objects_rt, direct_object_rt, parse_direct_object_rt,
+     dictionary_entry_rt                                  corollaries for the entry points
+     cont_follow, cont_lead, cont_elem, follow_nil        how to establish the follow condition
+     write_object_lead, space_tok, space_elem             first byte of a written object, white space
+     norm_obj_wf                                          the normal form is stable
+     array_rt, dictionary_rt, inner_dict_rt, fold_set_kv  the container loops (elem_rt)
 
    The separator rule of the writer ([need_separator]) is proved correct here: [cont_elem] shows
    that what the writer puts between two array elements / after a dictionary key / between a value
